@@ -19,9 +19,10 @@ def setup(ctx):
 
 def cases(rng, tier, shard, nshards):
     while True:
-        d = G.gen_doc(rng, canonical=rng.random() < 0.7)
+        canonical = rng.random() < 0.7
+        d = G.gen_doc(rng, canonical=canonical)
         lines = d.lines()
-        yield {"version": d.version, "lines": lines, "vlevel": rng.choice([0, 1, 1, 2, 3]),
+        yield {"version": d.version, "lines": lines, "vlevel": rng.choice([0, 1, 1, 2, 3]), "canonical": canonical,
                "connected": rng.random() < 0.7, "seed": rng.getrandbits(32)}
 
 
@@ -138,6 +139,22 @@ def run(case, ctx):
             continue
         if O.safe_str(x) != before_x:
             ctx.violation("clone-mutates-receiver/" + rt, before_x, prop="C10")
+        if case.get("canonical") and rt != "H":
+            # reading a field is not an edit: after a read on one copy only (a lazily stored field is
+            # then a string in one copy and an object in the other) the two still compare equal
+            c1 = call(ctx, "clone", x.clone)
+            fs1 = fields_of(x)
+            if c1.ok and fs1:
+                f1 = rng.choice(fs1)
+                which = rng.choice([x, c1.value])
+                call(ctx, "get (one copy only)", which.get, f1)
+                eq1 = call(ctx, "==", lambda: (c1.value == x, x == c1.value))
+                ctx.count("equalities_after_one_sided_read")
+                if not eq1.ok or eq1.value != (True, True):
+                    ctx.violation("clone-not-equal-after-read/%s/%s" % (rt, x.get_datatype(f1) if f1 in x.tagnames else f1),
+                                  "%r: field %s read on %s only; (clone == original, original == clone) = %r"
+                                  % (before_x, f1, "the original" if which is x else "the clone", eq1.value if eq1.ok else eq1.cls()))
+                    continue
         # aliasing monitor over the public field values
         shared = []
         kinds = set()
